@@ -82,8 +82,22 @@ class AllocAnalysis(Analysis):
                     continue
             if k[:2] == "r:" and (v == p):
                 pass
+            # local copy of a member pointer (detach-then-free idiom): the
+            # copy stops standing for the member once either is reassigned
+            if k[:2] == "l:" and (k[2:] == p or v == p):
+                continue
             out.append((k, v))
         return frozenset(out)
+
+    def _detached_copy(self, name):
+        """name is a local initialised from a member pointer somewhere in this
+        function (counted as a free(member) site of the detach-first idiom)."""
+        for n in self.cfg.fn.walk():
+            if n.k == "VarDecl" and n.n == name:
+                init = [c for c in n.kids if c.k != "Absent"]
+                if init and "->" in (path(init[-1]) or ""):
+                    return True
+        return False
 
     def _use(self, node, st, e, how):
         """e is used in a NULL-intolerant way."""
@@ -143,8 +157,14 @@ class AllocAnalysis(Analysis):
                             self._use(node, st, args[i], "passed to %s" % c[1])
                 if c[1] == "free" and args:
                     p = path(args[0])
+                    if p is not None and sget(st, "l:" + p) is not None:
+                        # free(local) while the member it was copied from has
+                        # not been reset: the member dangles
+                        p = sget(st, "l:" + p)
                     if p is not None and ("->" in p or "." in p):
                         st = sset(st, "x:" + p, "freed")
+                        self.free_sites.add(node.id)
+                    elif p is not None and self._detached_copy(p):
                         self.free_sites.add(node.id)
                     if p is not None:
                         tgt = sget(st, "r:" + p)
@@ -197,6 +217,10 @@ class AllocAnalysis(Analysis):
     def _assign(self, node, st, p, rhs, stmt):
         name, call = self._alloc_call(rhs)
         st = self._kill(st, p)
+        rp0 = path(rhs)
+        if rp0 is not None and "->" in rp0 and "->" not in p and "." not in p \
+                and "[" not in p and "[" not in rp0:
+            st = sset(st, "l:" + p, rp0)
         # store-back  P = Q
         rp = path(rhs)
         if rp is not None and sget(st, "r:" + rp) == p:
